@@ -195,6 +195,7 @@ type c02Case struct {
 	RidDesc bool            `json:"rid_desc,omitempty"`
 	Split   []int           `json:"split,omitempty"`
 	Sealed  bool            `json:"sealed,omitempty"`
+	Probe   bool            `json:"probe,omitempty"` // searches run between the bulks (forces lazy merges of posting lists)
 	Query   string          `json:"query,omitempty"`
 	From    uint64          `json:"from,omitempty"`
 	To      uint64          `json:"to,omitempty"`
@@ -209,16 +210,23 @@ type builtCorpus struct {
 	sealed *frac.Sealed
 }
 
-func buildCorpus(env *vfrac.Env, specs []vfrac.DocSpec, ridDesc bool, split []int, seal bool) (*builtCorpus, error) {
+// probeQueries touch the `_all_` list and one list of every field, so that their queued postings are
+// merged before the next bulk arrives (posting lists merge lazily, on search).
+var probeQueries []vfrac.ParsedQuery
+
+func buildCorpus(env *vfrac.Env, specs []vfrac.DocSpec, ridDesc bool, split []int, seal bool, probe ...func(sofar []refdb.Doc, a *frac.Active)) (*builtCorpus, error) {
 	docs := vfrac.MakeDocs(specs, ridDesc)
 	bc := &builtCorpus{docs: docs}
 	a := env.NewActive(env.NextBase(), &frac.Config{})
 	pos := 0
-	for _, n := range split {
+	for i, n := range split {
 		if err := env.Append(a, docs[pos:pos+n]); err != nil {
 			return nil, err
 		}
 		pos += n
+		if len(probe) > 0 && probe[0] != nil && i < len(split)-1 {
+			probe[0](docs[:pos], a)
+		}
 	}
 	bc.active = a
 	if seal {
@@ -263,7 +271,7 @@ func searchOnce(r *vlib.Run, bc *builtCorpus, c c02Case, pq vfrac.ParsedQuery) {
 	qpr, err := vfrac.Search(bc.frac(), vfrac.Params(pq, c.From, c.To, c.Asc, c.Limit, c.Total))
 	wantIDs, wantTotal := refdb.Search(bc.docs, pq.Ref, c.From, c.To, c.Asc, c.Limit)
 	sig := func(kind string) string {
-		return fmt.Sprintf("%s specs=%v ridDesc=%v split=%v sealed=%v q=%s range=[%d,%d] asc=%v limit=%d total=%v", kind, c.Specs, c.RidDesc, c.Split, c.Sealed, c.Query, c.From, c.To, c.Asc, c.Limit, c.Total)
+		return fmt.Sprintf("%s specs=%v ridDesc=%v split=%v sealed=%v probe=%v q=%s range=[%d,%d] asc=%v limit=%d total=%v", kind, c.Specs, c.RidDesc, c.Split, c.Sealed, c.Probe, c.Query, c.From, c.To, c.Asc, c.Limit, c.Total)
 	}
 	if err != nil {
 		r.Violation(sig("search-error"), c, err.Error())
@@ -300,7 +308,16 @@ func TestVerifC02(t *testing.T) {
 			t.Logf("replay node: got=%v want=%v", got, want)
 			judgeNode(r, *rc.Node)
 		} else {
-			bc, err := buildCorpus(env, rc.Specs, rc.RidDesc, rc.Split, rc.Sealed)
+			var probeFn func(sofar []refdb.Doc, a *frac.Active)
+			if rc.Probe {
+				probeQueries, _ = parseAll([]refdb.Query{refdb.All{}, c02Atoms[1], c02Atoms[5], c02Atoms[8], c02Atoms[9]})
+				probeFn = func(sofar []refdb.Doc, a *frac.Active) {
+					for _, pq := range probeQueries {
+						vfrac.Search(a, vfrac.Params(pq, 0, vfrac.MaxMID, false, 100, true))
+					}
+				}
+			}
+			bc, err := buildCorpus(env, rc.Specs, rc.RidDesc, rc.Split, rc.Sealed, probeFn)
 			if err != nil {
 				t.Fatal(err)
 			}
@@ -375,6 +392,10 @@ func TestVerifC02(t *testing.T) {
 	if err != nil {
 		t.Fatal(err)
 	}
+	probeQueries, err = parseAll([]refdb.Query{refdb.All{}, c02Atoms[1], c02Atoms[5], c02Atoms[8], c02Atoms[9]})
+	if err != nil {
+		t.Fatal(err)
+	}
 	r.Note("queries: %d trees<=2 leaves, %d 3-leaf trees, %d grid queries", len(q2), len(q3), len(qGrid))
 
 	// enumerate corpora. quick: n<=2 over all templates with every variant; n=3 over the first 5 templates
@@ -409,6 +430,7 @@ func TestVerifC02(t *testing.T) {
 		split   []int
 		ridDesc bool
 		sealed  bool
+		probe   bool
 	}
 	vlib.Parallel(len(corpora), 0, func(ci int) {
 		if r.Expired() {
@@ -421,7 +443,10 @@ func TestVerifC02(t *testing.T) {
 		for _, sp := range splits {
 			for _, sealed := range []bool{false, true} {
 				for _, rd := range []bool{false, true} {
-					all = append(all, variant{sp, rd, sealed})
+					all = append(all, variant{sp, rd, sealed, false})
+					if len(sp) > 1 { // several bulks: also with searches between them
+						all = append(all, variant{sp, rd, sealed, true})
+					}
 				}
 			}
 		}
@@ -431,7 +456,7 @@ func TestVerifC02(t *testing.T) {
 		case n == 2: // every (split, sealed); RID direction alternates with the corpus index
 			vars = nil
 			for i, v := range all {
-				if v.ridDesc == ((ci+i/2)%2 == 1) {
+				if v.ridDesc == ((ci+i/2)%2 == 1) || v.probe {
 					vars = append(vars, v)
 				}
 			}
@@ -439,14 +464,25 @@ func TestVerifC02(t *testing.T) {
 			vars = []variant{all[ci%len(all)]}
 		}
 		for vi, v := range vars {
-			bc, err := buildCorpus(env, specs, v.ridDesc, v.split, v.sealed)
+			var probeFn func(sofar []refdb.Doc, a *frac.Active)
+			if v.probe {
+				probeFn = func(sofar []refdb.Doc, a *frac.Active) {
+					// the partially ingested fraction is a corpus of its own: judged like any other
+					pb := &builtCorpus{docs: sofar, active: a}
+					for _, pq := range probeQueries {
+						c := c02Case{Specs: specs[:len(sofar)], RidDesc: v.ridDesc, Split: v.split, Probe: true, Query: pq.Text, From: 0, To: vfrac.MaxMID, Limit: 100, Total: true}
+						searchOnce(r, pb, c, pq)
+					}
+				}
+			}
+			bc, err := buildCorpus(env, specs, v.ridDesc, v.split, v.sealed, probeFn)
 			if err != nil {
 				r.Violation(fmt.Sprintf("build specs=%v split=%v sealed=%v", specs, v.split, v.sealed), c02Case{Specs: specs, Split: v.split, Sealed: v.sealed, RidDesc: v.ridDesc}, err.Error())
 				continue
 			}
 			r.Add("fractions_built", 1)
-			r.Distinct("nontrivial", fmt.Sprintf("corpus|%v|%v|%v|%v", specs, v.split, v.ridDesc, v.sealed))
-			base := c02Case{Specs: specs, RidDesc: v.ridDesc, Split: v.split, Sealed: v.sealed}
+			r.Distinct("nontrivial", fmt.Sprintf("corpus|%v|%v|%v|%v|%v", specs, v.split, v.ridDesc, v.sealed, v.probe))
+			base := c02Case{Specs: specs, RidDesc: v.ridDesc, Split: v.split, Sealed: v.sealed, Probe: v.probe}
 			// (a) query logic: full range, both orders, unlimited, with total
 			run := func(pqs []vfrac.ParsedQuery) {
 				for qi, pq := range pqs {
@@ -496,7 +532,7 @@ func TestVerifC02(t *testing.T) {
 	})
 	ev := r.Get("evaluations")
 	r.Finish(t, "model_checking",
-		fmt.Sprintf("node level: all pairs of subsets of {1..5} x {and,or,nand} + not over all [min,max] + 3-input combinations over subsets of {1..4}, both directions. fraction level: every sequence of <=%d docs over %d templates x 3 timestamps (equal timestamps forced), every split into bulks, active and sealed, RID direction both (alternating for n>=3); queries: all trees <=2 leaves over 10 atoms with NOT anywhere (%d), 3-leaf trees over 3 atoms (%d), grid of 5 queries x all [from,to] over 7 borders x both orders x limits {0,1,2,n,n+1} x total on/off. distinct_nontrivial = distinct fraction builds + node cases with non-empty expected output", maxDocs, nTemplates, len(q2), len(q3)),
+		fmt.Sprintf("node level: all pairs of subsets of {1..5} x {and,or,nand} + not over all [min,max] + 3-input combinations over subsets of {1..4}, both directions. fraction level: every sequence of <=%d docs over %d templates x 3 timestamps (equal timestamps forced), every split into bulks, with and without searches between the bulks (lazy posting-list merges), active and sealed, RID direction both (alternating for n>=3); queries: all trees <=2 leaves over 10 atoms with NOT anywhere (%d), 3-leaf trees over 3 atoms (%d), grid of 5 queries x all [from,to] over 7 borders x both orders x limits {0,1,2,n,n+1} x total on/off. distinct_nontrivial = distinct fraction builds + node cases with non-empty expected output", maxDocs, nTemplates, len(q2), len(q3)),
 		map[string]any{
 			"states":                        r.Get("fractions_built") + r.Get("node_cases"),
 			"transitions":                   ev,
